@@ -434,10 +434,10 @@ func IngressTCPOnly(p *core.Program, r *core.Report, rule string) {
 			// find `if protocol != TCP || portInt < 0 { continue }`
 			ast.Inspect(fd.Decl.Body, func(n ast.Node) bool {
 				ifs, isIf := n.(*ast.IfStmt)
-				if !isIf || len(ifs.Body.List) != 1 {
+				if !isIf || len(ifs.Body.List) == 0 {
 					return true
 				}
-				br, isBr := ifs.Body.List[0].(*ast.BranchStmt)
+				br, isBr := ifs.Body.List[len(ifs.Body.List)-1].(*ast.BranchStmt)
 				if !isBr || br.Tok != token.CONTINUE {
 					return true
 				}
